@@ -54,7 +54,7 @@ func (d *DynCache) ownerRef(owner client.Object) (dynamiccache.OwnerReference, e
 
 // Refs returns the registry as sorted strings "Kind <- OwnerKind/ns/name#uid".
 func (d *DynCache) Refs() []string {
-	var out []string
+	out := []string{}
 	for gvk, m := range d.refs {
 		for o := range m {
 			out = append(out, gvk.Kind+" <- "+o.Kind+"/"+o.Namespace+"/"+o.Name+"#"+string(o.UID))
